@@ -478,3 +478,123 @@ func linCK(v ssa.Value, d int) linForm {
 	}
 	return linAtom(coordKey(v))
 }
+
+// ---------------------------------------------------------------------------------------------
+// R18.11 — runs are merged only within one scan line;  R18.12 — box queries read whole z layers of spans
+
+func init() {
+	register(ruleDef{ID: "R18.11", Prop: "C18", Tier: "quick", Floor: 1,
+		Title: "normalisation keeps runs on their scan line: a run is extended by the next one only when both their y and their z are equal (and the x positions meet)",
+		Fn:    ruleMergeSameLine})
+	register(ruleDef{ID: "R18.12", Prop: "C18", Tier: "quick", Floor: 3,
+		Title: "a box query sees every span that reaches into the box: the key range handed to the span reader is bounded in z only (spans are keyed by their start x, which may lie left of the box)",
+		Fn:    ruleSpanRangeByZ})
+}
+
+// axisEqualAt: block b is reached only when two point components of the given axis are equal.
+func axisEqualAt(f *ssa.Function, axis int, at ssa.Instruction) bool {
+	for _, blk := range f.Blocks {
+		ifi, ok := blk.Instrs[len(blk.Instrs)-1].(*ssa.If)
+		if !ok {
+			continue
+		}
+		bo, ok := ifi.Cond.(*ssa.BinOp)
+		if !ok || (bo.Op != token.NEQ && bo.Op != token.EQL) {
+			continue
+		}
+		kx, ax, okx := axisOf(stripConv(bo.X))
+		ky, ay, oky := axisOf(stripConv(bo.Y))
+		if !okx || !oky || kx == "bs" || ky == "bs" || ax != axis || ay != axis {
+			continue
+		}
+		edge := 1
+		if bo.Op == token.EQL {
+			edge = 0
+		}
+		if guardedByEdge(ifi, edge, at) {
+			return true
+		}
+	}
+	return false
+}
+
+func ruleMergeSameLine(r *Run) {
+	w := r.W
+	n := 0
+	for _, f := range w.RepoFuncs {
+		if relPkg(pkgPathOf(f)) != "dvid" || len(f.Blocks) == 0 || strings.HasSuffix(w.fposFile(f), "_test.go") {
+			continue
+		}
+		if f.Signature.Recv() == nil || recvName(f.Signature.Recv().Type()) != "RLEs" || f.Name() != "Normalize" {
+			continue
+		}
+		for _, b := range f.Blocks {
+			for _, in := range b.Instrs {
+				st, ok := in.(*ssa.Store)
+				if !ok {
+					continue
+				}
+				fa, ok := st.Addr.(*ssa.FieldAddr)
+				if !ok {
+					continue
+				}
+				if name, _, _ := fieldName(fa); name != "length" {
+					continue
+				}
+				add, ok := stripConv(st.Val).(*ssa.BinOp)
+				if !ok || add.Op != token.ADD {
+					continue
+				}
+				n++
+				y, z := axisEqualAt(f, 1, st), axisEqualAt(f, 2, st)
+				r.check(y && z, fmt.Sprintf("%s:run-extended#%d:same-y-and-z", fname(f), n), "the extension is reached only with equal y and equal z",
+					fmt.Sprintf("a run is extended by its successor without both scan-line coordinates being tested equal (y tested: %v, z tested: %v): runs of different lines that happen to meet in x are joined and their voxels move to the wrong line", y, z), w.pos(st.Pos()))
+			}
+		}
+	}
+	r.check(n >= 1, "dvid.RLEs.Normalize:merge-sites", fmt.Sprintf("%d run extensions", n), "run extension in Normalize not found: rule needs review", "-")
+}
+
+func ruleSpanRangeByZ(r *Run) {
+	w := r.W
+	n := 0
+	for _, f := range w.RepoFuncs {
+		if relPkg(pkgPathOf(f)) != "datatype/roi" || len(f.Blocks) == 0 || strings.HasSuffix(w.fposFile(f), "_test.go") {
+			continue
+		}
+		k := 0
+		for _, c := range calls(f) {
+			cal := staticCallee(c)
+			if cal == nil || cal.Name() != "getSpans" || len(c.Common().Args) != 3 {
+				continue
+			}
+			n++
+			k++
+			bad := ""
+			for _, a := range c.Common().Args[1:] {
+				okArg := false
+				rs := roots(a, f)
+				for _, rt := range rs {
+					switch x := rt.V.(type) {
+					case *ssa.Call:
+						if cc := x.Call.StaticCallee(); cc != nil && (cc.Name() == "minIndexByBlockZ" || cc.Name() == "maxIndexByBlockZ") {
+							okArg = true
+						}
+					case *ssa.UnOp:
+						if g, ok := x.X.(*ssa.Global); ok && (g.Name() == "minIndexRLE" || g.Name() == "maxIndexRLE") {
+							okArg = true
+						}
+					case *ssa.Parameter:
+						okArg = true // judged at the callers
+					}
+				}
+				if !okArg {
+					bad = w.pos(c.Pos())
+				}
+			}
+			r.check(bad == "", fmt.Sprintf("%s:getSpans#%d:range-bounded-in-z-only", fname(f), k), "the range covers whole z layers (or everything)",
+				"the span reader is given a key range that is also bounded in y or x: spans are keyed by (z, y, start x), so a span that starts left of the box (or on the box's first rows) but reaches into it is never read, and mask / membership answers miss it", bad)
+		}
+	}
+	r.check(n >= 3, "roi:getSpans-sites", fmt.Sprintf("%d call sites", n), "too few: rule needs review", "-")
+}
